@@ -195,17 +195,39 @@ def c14c(ctx):
     ctx.check(ok, 'WMSClient.combined_client:layer-order', 'the combined LAYERS list is self then other (bottom layer first)', cc2,
               fail='the combined request lists the layers in the wrong order')
     cb = ctx.fn(WMS + ':combined_layers')
+    # roles instead of names: R = the list that is returned, L = the layer that is offered to R[-1], C = the result of the offer
+    cdefs = Defs(cb.node)
+    rets = [r.value.id for r in returns_of(cb.node) if isinstance(r.value, ast.Name) and r.value.id not in cb.params]
+    R = rets[0] if rets else '?'
     comb = [x for x in cb.walk() if is_call(x, 'combined_layer')]
-    ok = len(comb) == 1 and unparse(comb[0].func.value) == 'combined_layers[-1]' and unparse(comb[0].args[0]) == 'current_layer'
+    ok = len(comb) == 1 and unparse(comb[0].func.value) == '%s[-1]' % R and isinstance(comb[0].args[0], ast.Name)
+    L = comb[0].args[0].id if ok else '?'
     ctx.check(ok, 'combined_layers:adjacent-only', 'only the last combined layer and the next layer (adjacent) are merged', cb,
               fail='non-adjacent layers can be combined: a layer in between changes its position in the stack')
-    app = [x for x in cb.walk() if is_call(x, 'combined_layers.append')]
+    asg = enclosing(comb[0], ast.Assign) if comb else None
+    C = asg.targets[0].id if asg is not None and isinstance(asg.targets[0], ast.Name) else '?'
+    app = [x for x in cb.walk() if is_call(x, R + '.append')]
     g = cb.cfg
-    ok = bool(app) and all(unparse(x.args[0]) == 'current_layer' and g.guarded(g.node_for(x), lambda at: at.op is None and unparse(at.expr) == 'combined', False) for x in app)
-    ctx.check(ok, 'combined_layers:append-otherwise', 'a layer that cannot be combined is appended in order', cb)
-    pops = [x for x in cb.walk() if is_call(x, 'layers.pop')]
-    ok = bool(pops) and all(const_value(x.args[0]) == 0 for x in pops)
-    ctx.check(ok, 'combined_layers:front-to-back', 'layers are consumed from the front (bottom first)', cb)
+    ok = bool(app) and all(unparse(x.args[0]) == L and g.guarded(g.node_for(x), lambda at: at.op is None and unparse(at.expr) == C, False) for x in app)
+    repl = g.find_stmts(lambda s: isinstance(s, ast.Assign) and unparse(s.targets[0]) == '%s[-1]' % R)
+    ok = ok and bool(repl) and all(unparse(g.stmt[n].value) == C and g.guarded(n, lambda at: at.op is None and unparse(at.expr) == C, True) for n in repl)
+    ctx.check(ok, 'combined_layers:append-otherwise', 'a layer that cannot be combined is appended in order; a combined one replaces the last entry', cb)
+    # L runs over the input front to back: pop(0) from a copy, or a forward for loop over the list (tail)
+    ldefs = cdefs.of(L)
+    src = cb.params[0]
+    okf = bool(ldefs)
+    for v, sel in ldefs:
+        if is_call(v, 'pop'):
+            okf = okf and const_value(v.args[0] if v.args else None, 'x') == 0
+        elif sel == 'elem':
+            it = v
+            okf = okf and not contains(it, lambda x: is_call(x, 'reversed') or (isinstance(x, ast.Slice) and x.step is not None)) and \
+                (unparse(it) in (src, src + '[1:]'))
+        else:
+            okf = False
+    first = [v for v, sel in cdefs.of(R) if isinstance(v, ast.List) and len(v.elts) == 1]
+    okf = okf and len(first) == 1 and (unparse(first[0].elts[0]) in (src + '[0]', src + '.pop(0)'))
+    ctx.check(okf, 'combined_layers:front-to-back', 'layers are consumed from the front (bottom first)', cb)
 
 
 @rule('C14.d', floor=4)
